@@ -39,12 +39,22 @@ def c06_nested():
     return c06.NESTED + ["&a = d1000; a", "&a = 2d1000; func g(){ a }; g()"]
 
 
+METHOD_PROGRAMS = ["[3,1,2].kh(1+1)", "[3,1,2].kl(2-1)", "[1,2,3].sum()", "[1,2,3].len()", "{'a':1}.keys()", "{'a':1}.values()", "{'a':1}.items()",
+                   "[1,2,3].rand()", "[1,2,3,4].shuffle()", "[1,2,3,4].randSize(1+1)", "x=[3,1,2]; m=x.kh; m(2)", "x=[5,6]; x.push(7); x.pop(); x.shift()",
+                   "&cv = 1 + 1; &cv.compute()", "[[1,2].sum(), [3,4].sum(), [5].len()]", "x = [1,2,3]; [x.kh(), x.kl(), x.sum(), x.len()]",
+                   "func g(u) { u.sum() }; g([1,2]) + g([3])"]
+
+
 def make_jobs(rnd, n):
     jobs = []
     for i in range(n):
         k = rnd.randrange(10)
+        if i < 2 * len(METHOD_PROGRAMS):
+            k = -1      # every run starts with bound-method programs on all goroutines (a receiver is bound between attr.get and invoke)
         g = gen.G(rnd, max_depth=rnd.choice([1, 2]))
-        if k < 5:
+        if k < 0:
+            src = METHOD_PROGRAMS[i % len(METHOD_PROGRAMS)].encode()
+        elif k < 5:
             src = g.program().encode()
         elif k < 7:
             src = rnd.choice(c06_nested() + ["2d6+1", "3d20k2", "b2+p", "5a8", "3c8", "f", "[1,2,3].rand()", "[1,2,3,4].shuffle()", "2d6 + 3d4 * 2", "d", "x=2d6; x+1"]).encode()
